@@ -18,6 +18,10 @@ PCODE = {"KVertex": 1, "KVertexSub": 2, "KUniverse": 3, "KDir": 4, "KDirSub": 5,
          "TwoEnded": 10, "Link": 11, "Base": 12, "Object": 13, "NoneType": 14}
 # per configured class: the `type` keyword (vertices) or the two sides (links) make the choice visible in the text
 VTYPE = {"KVertex": "object", "KVertexSub": "class", "KUniverse": "entity", "Base": "card"}
+# title format per configured vertex class: "$id" for Vertex, a format over the attribute `nm` (= n<id>) for the others,
+# so that WHICH class's options produced a title is visible in the text
+TITLE = {"KVertex": "$id", "KVertexSub": "S_{nm}", "KUniverse": "U_{nm}", "Base": "B_{nm}"}
+PREFIX = {"v": "KVertex", "S_n": "KVertexSub", "U_n": "KUniverse", "B_n": "Base"}
 SIDES = {"KDir": ("", ">"), "KUnd": ("", ""), "KDirSub": ("<", ">"), "TwoEnded": ("x", "x"), "Base": ("o", "o")}
 CLS = {"KVertex": Vertex, "KVertexSub": H.VSub, "KUniverse": Universe, "KDir": DirectedEdge, "KDirSub": H.DSub,
        "KUnd": UnDirectedEdge, "TwoEnded": TwoEndedLink, "Base": BaseObject}
@@ -32,7 +36,7 @@ def make_options(ci):
     for key in CONF_KEYS[ci]:
         d = {}
         if key in VTYPE:
-            d.update({"type": VTYPE[key], "show_attrs": ["^zzz$"], "title_format": "$id"})
+            d.update({"type": VTYPE[key], "show_attrs": ["^nm$"], "title_format": TITLE[key]})
         if key in SIDES:
             d.update({"v1side": SIDES[key][0], "v2side": SIDES[key][1]})
         opts[CLS[key]] = d
@@ -87,10 +91,21 @@ DECL = re.compile(r"^(\w+) (\S+) <<(\w+)>> \{$")
 REL = re.compile(r"^(\S+) (\S*)--(\S*) (\S+)$")
 
 
+def parse_title(t):
+    """title -> (vertex id, code of the configured class whose title format produced it)"""
+    import re as _re
+    for pre, key in (("S_n", "KVertexSub"), ("U_n", "KUniverse"), ("B_n", "Base"), ("v", "KVertex")):
+        m = _re.fullmatch(_re.escape(pre) + r"(\d+)", t)
+        if m:
+            return int(m.group(1)), PCODE[key]
+    return -1, 0
+
+
 def parse_puml(w, src, ci):
-    """declaration headers (vertex id, configured-class code) in order and the sorted relation keys"""
+    """declaration headers (vertex id, configured-class code) in order and the sorted relation rows
+    [v1, v2, link class code, class code of v1's title format, of v2's]"""
     src = canon_text(w, src)
-    decls, rels, junk = [], [], []
+    decls, rels = [], []
     inv_type = {v: k for k, v in VTYPE.items()}
     if ci == 0:
         inv_type = {"object": "KVertex"}
@@ -98,15 +113,18 @@ def parse_puml(w, src, ci):
     for line in src.split("\n"):
         m = DECL.match(line)
         if m:
-            vid = int(m.group(2)[1:]) if re.fullmatch(r"v\d+", m.group(2)) else -1
-            decls.append([vid, PCODE.get(inv_type.get(m.group(1), "?"), 0), m.group(3)])
+            vid, tcode = parse_title(m.group(2))
+            code = PCODE.get(inv_type.get(m.group(1), "?"), 0)
+            if tcode != code and not (ci == 0):
+                code = 0                      # the title was not produced by the options of the declared type
+            decls.append([vid, code, m.group(3)])
             continue
         m = REL.match(line)
         if m and not line.startswith(" "):
-            a = int(m.group(1)[1:]) if re.fullmatch(r"v\d+", m.group(1)) else -1
-            b = int(m.group(4)[1:]) if re.fullmatch(r"v\d+", m.group(4)) else -1
+            a, ca = parse_title(m.group(1))
+            b, cb = parse_title(m.group(4))
             k = PCODE.get(inv_sides.get((m.group(2), m.group(3)), "?"), 0)
-            rels.append((a * 100 + b) * 100 + k)
+            rels.append([a if a >= 0 else 9999, b if b >= 0 else 9999, k, ca, cb])
     return [decls, sorted(rels)]
 
 
@@ -130,7 +148,7 @@ def c_rans(a):
         if a[1] is None:
             return "ADoc None"
         decls = C.clist(a[1][0], lambda d: f"({d[0] if d[0] >= 0 else 9999}, {d[1]})")
-        return f"ADoc (Some ({decls}, {H.c_ids(a[1][1])}))"
+        return f"ADoc (Some ({decls}, {C.clist(a[1][1], H.c_ids)}))"
     if a[0] == "raise":
         return f"ARaise {a[1]}" if a[1] in H.EXN else "ARaise IllTyped"
     return "ARaise IllTyped"
@@ -175,8 +193,10 @@ class RenderLeg(Leg):
             for op in case["ops"]:
                 w.do(op)
             for i, o in enumerate(w.objs):        # attributes for title formats / attribute listings
-                if H.kind_of(o) in H.VERTEX_KINDS and i % 2:
-                    o.tag = i
+                if H.kind_of(o) in H.VERTEX_KINDS:
+                    o.nm = f"n{i}"
+                    if i % 2:
+                        o.tag = i
             self.decorate(w, case)
             snap = w.snapshot()
             before = [dict(vars(o)) for o in w.objs]
